@@ -230,11 +230,21 @@ func (e *Env) Block(dt time.Duration, txs ...*TxPlan) []abci.ResponseDeliverTx {
 
 // Gov pushes msgs through a real governance proposal (2 blocks). Returns true if it passed.
 func (e *Env) Gov(desc string, msgs ...sdk.Msg) bool {
+	return e.GovAlong(desc, nil, msgs...)
+}
+
+// GovAlong is Gov with further transactions delivered in the block that submits the proposal (so
+// that their effects - e.g. decisions tallied in the next BeginBlock - meet the proposal's
+// execution in the EndBlock of that next block).
+func (e *Env) GovAlong(desc string, along []*TxPlan, msgs ...sdk.Msg) bool {
 	if e.Halted != "" {
 		return false
 	}
 	a0 := e.L.Accts[0]
 	e.BeginBlock(time.Second)
+	for _, t := range along {
+		e.Deliver(t)
+	}
 	sp, err := newSubmitProposal(msgs, a0.Addr.String())
 	if err != nil {
 		e.tracef("  gov %s: cannot build proposal: %v", desc, err)
